@@ -72,7 +72,11 @@ def backlog(ctx):
     race = lib.run_go(ctx, "multiplex", "TestVerifMuxRecvCloseRace", timeout=900)
     lib.collect_go(ctx, race, died_key="panic")
     ctx.log("recv-vs-close race: %d rounds, %d violations" % (race["stats"].get("rounds", 0), len(race.get("violations", []))))
-    return {"evaluations": res["evaluations"] + race["evaluations"], "distinct_nontrivial": res["distinct_nontrivial"] + race["distinct_nontrivial"],
+    cc = lib.run_go(ctx, "multiplex", "TestVerifMuxCloseVsCloseRace", timeout=900, tag="close_vs_close")
+    lib.collect_go(ctx, cc)
+    ctx.log("close-vs-close race: %d rounds, %d violations" % (cc["stats"].get("rounds", 0), len(cc.get("violations", []))))
+    return {"evaluations": res["evaluations"] + race["evaluations"] + cc["evaluations"], "close_vs_close_rounds": cc["stats"].get("rounds", 0),
+            "distinct_nontrivial": res["distinct_nontrivial"] + race["distinct_nontrivial"],
             "samples": res["samples"][:1] + race["samples"][:1], "traces": res["evaluations"] + race["evaluations"]}
 
 
